@@ -92,8 +92,9 @@ public:
      */
     static suspend_point<void> resume_chain_set_ready(awaiter_collector &chain, awaiter &ready_state) {
         //acquire memory order, we need to see modifications made by other thread during registration
-        //this is first operation of the thread of awaiters
-        return resume_chain_lk(chain.exchange(&ready_state, std::memory_order_acquire));
+        //release memory order, the result stored before this call must be visible to everybody
+        //who finds the ready marker in the slot (ready(), failed subscribe_check_ready())
+        return resume_chain_lk(chain.exchange(&ready_state, std::memory_order_acq_rel));
     }
     static suspend_point<void> resume_chain_lk(awaiter *chain) {
         suspend_point<void> ret;
